@@ -14,7 +14,7 @@ class C22(Prop):
   thorough_examples = 15000
   rule = ("Metamorphic twins: a Hypothesis-generated chart x start state x event list is run twice "
           "on the same kind of host (plain/instrumented/queued; decorated, not decorated or only partly decorated); one twin has "
-          "generated is_in / child_state queries (argument: any state of the chart or top) "
+          "generated is_in / child_state queries (argument: any state of the chart, top, or - one in six - the same-named state function of another chart built from the same recipe, which is no state of this chart) "
           "interleaved after start_at and between events. Oracle: is_in(X) is true iff X is on the "
           "reference model's active path (X = current state, an ancestor, or top); child_state(P) "
           "returns the model's child of P on that path (the current state when P is current) and "
@@ -40,7 +40,8 @@ class C22(Prop):
       qs = {}
       for k in range(-1, len(c["events"])):
         if draw(st.integers(0, 2)) > 0:
-          qs[str(k)] = [[draw(st.sampled_from(["is_in", "child_state"])), draw(st.integers(-1, n - 1))]
+          qs[str(k)] = [[draw(st.sampled_from(["is_in", "child_state"])), draw(st.integers(-1, n - 1))] +
+                        (["twin"] if draw(st.integers(0, 5)) == 0 else [])
                         for _ in range(draw(st.integers(1, 3)))]
       c["queries_after"] = qs
       return c
@@ -49,6 +50,10 @@ class C22(Prop):
   def expected(self, model, q):
     path = model.path(model.cur)     # innermost first, without top
     x = q[1]
+    if len(q) > 2 and q[2] == "twin" and x != TOP:
+      # a function of ANOTHER chart built from the same recipe (same name, not this chart's state):
+      # it is neither the current state nor encloses it
+      return ("ok", False) if q[0] == "is_in" else ("raised", None)
     if q[0] == "is_in":
       return ("ok", x == TOP or x in path)
     if x == TOP:
@@ -69,6 +74,7 @@ class C22(Prop):
       chart = hsmcheck.make_host(case["host"])
       twins.append((rt, chart))
     (rq, cq), (rp, cp) = twins
+    rq.twin_fns = chartgen.build(spec, decorate=deco).fns
     qs = case.get("queries_after") or {}
     nontrivial, classes = False, ["host_" + case["host"]]
     try:
@@ -98,6 +104,9 @@ class C22(Prop):
           want = self.expected(model, q)
           depth = model.depth(model.cur)
           encl = q[1] == TOP or q[1] in model.path(model.cur)
+          if len(q) > 2 and q[1] != TOP:
+            encl = False
+            classes.append("same_named_function_of_another_chart")
           classes.append("%s_%s" % (q[0], "enclosing" if encl else "other"))
           if depth >= 3 and not encl:
             nontrivial = True
